@@ -881,6 +881,23 @@ theorem isRegistered_false (s : Repo) (ns : Str) (lazy : Bool) (h : isRegistered
     · assumption
     · subst hl; cases h
 
+theorem transitionPromotes_now : transitionPromotes = true := by decide
+
+theorem promoted_cases (s : Repo) (t : TL) :
+    (lookupNs s.lazy t.ns = none ∧ promoted s t = t)
+    ∨ (∃ t0, lookupNs s.lazy t.ns = some t0 ∧ promoted s t = t0) := by
+  unfold promoted
+  rw [transitionPromotes_now]
+  simp only [if_true]
+  cases h : lookupNs s.lazy t.ns with
+  | none => exact Or.inl ⟨rfl, rfl⟩
+  | some t0 => exact Or.inr ⟨t0, rfl, rfl⟩
+
+theorem promoted_ns (s : Repo) (t : TL) : (promoted s t).ns = t.ns := by
+  rcases promoted_cases s t with ⟨_, h⟩ | ⟨t0, h0, h⟩
+  · rw [h]
+  · rw [h]; exact (lookupNs_some _ _ _ h0).2
+
 /-- `register_internal` never trips its assertion when called from the load functions -/
 theorem loadOp_ne_none (s : Repo) (t : TL) (lazy : Bool) (pos : Nat) : loadOp s t lazy pos ≠ none := by
   unfold loadOp
@@ -891,19 +908,18 @@ theorem loadOp_ne_none (s : Repo) (t : TL) (lazy : Bool) (pos : Nat) : loadOp s 
     obtain ⟨_, hl⟩ := isRegistered_false s t.ns lazy hreg'
     unfold registerInternal registerInternalWith
     cases lazy with
-    | true => simp [hl rfl]
+    | true => simp [promoted_ns, hl rfl]
     | false => simp
 
-theorem step_load (s s' : Repo) (t : TL) (lazy : Bool) (pos : Nat) (hi : Inv s)
-    (hok : OpOk s (.load t lazy pos)) (h : loadOp s t lazy pos = some s') : Inv s' := by
+/-- one `register_internal` of a namespace that is not in the loaded table (nor, for a lazy
+    registration, in the lazy table): when it replaces a lazily loaded typelib the new one has the
+    same directory -/
+theorem step_register (s s' : Repo) (t : TL) (lazy : Bool) (pos : Nat) (hi : Inv s)
+    (he : lookupNs s.eager t.ns = none) (hl : lazy = true → lookupNs s.lazy t.ns = none)
+    (hok : lazy = false → ∀ t' ∈ s.lazy, t'.ns = t.ns → t'.lib.dir = t.lib.dir)
+    (h : registerInternal s t lazy pos = some s') : Inv s' := by
   obtain ⟨hct, hcf⟩ := registerClearsUnknown_now
-  unfold loadOp at h
-  split at h
-  · cases h; exact hi
-  · rename_i hreg
-    have hreg' : isRegistered s t.ns lazy = false := by simpa using hreg
-    obtain ⟨he, hl⟩ := isRegistered_false s t.ns lazy hreg'
-    have hne : ∀ x ∈ s.eager, x.ns ≠ t.ns := (lookupNs_none _ _).mp he
+  · have hne : ∀ x ∈ s.eager, x.ns ≠ t.ns := (lookupNs_none _ _).mp he
     have hnd0 := hi.nodup
     unfold Repo.loaded at hnd0
     rw [List.map_append] at hnd0
@@ -977,5 +993,26 @@ theorem step_load (s s' : Repo) (t : TL) (lazy : Bool) (pos : Nat) (hi : Inv s)
         · have hsub : (s.eager ++ s.lazy.filter (fun x => !(x.ns == t.ns))).Sublist (s.eager ++ s.lazy) :=
             List.Sublist.append_left List.filter_sublist s.eager
           exact (hi.nodup).sublist (hsub.map (·.ns))
+
+theorem step_load (s s' : Repo) (t : TL) (lazy : Bool) (pos : Nat) (hi : Inv s)
+    (h : loadOp s t lazy pos = some s') : Inv s' := by
+  unfold loadOp at h
+  split at h
+  · cases h; exact hi
+  · rename_i hreg
+    have hreg' : isRegistered s t.ns lazy = false := by simpa using hreg
+    obtain ⟨he, hl⟩ := isRegistered_false s t.ns lazy hreg'
+    have hns := promoted_ns s t
+    refine step_register s s' (promoted s t) lazy pos hi (by rw [hns]; exact he)
+      (fun hz => by rw [hns]; exact hl hz) ?_ h
+    intro _ x hx hxn
+    rcases promoted_cases s t with ⟨hnone, _⟩ | ⟨t0, h0, hp⟩
+    · exact absurd (hxn.trans hns) ((lookupNs_none _ _).mp hnone x hx)
+    · -- the typelib registered IS the one of the lazy table
+      rw [hp] at hxn ⊢
+      obtain ⟨hm0, _⟩ := lookupNs_some _ _ _ h0
+      have := ns_inj_of_nodup s.loaded hi.nodup x t0 (List.mem_append_right _ hx)
+        (List.mem_append_right _ hm0) hxn
+      rw [this]
 
 end GIVerif.Lookup
